@@ -2,5 +2,5 @@
 # usage: mut.sh '<sed expr>' <file> -- <ssasym args...>   (scratch mutation test; always restores /repo)
 expr="$1"; file="$2"; shift 3
 cd /repo && sed -i "$expr" "$file" && git diff --stat | tail -1
-cd /verif && ./bin/ssasym "$@" 2>&1 | grep -v "model=" | cut -c1-300 | tail -8
+cd /verif && timeout ${MUT_TIMEOUT:-600} ./bin/ssasym "$@" 2>&1 | grep -v "model=" | cut -c1-300 | tail -8
 git -C /repo checkout -- . 
